@@ -72,7 +72,10 @@ def reproduce(modname, result):
 
 def as_extra(modname, names, prop, timeout=30):
     """result in the shape main.py merges into the evidence (`post` hook of a property module)"""
-    rs = run_lemmas(modname, names, timeout)
+    try:
+        rs = run_lemmas(modname, names, timeout)
+    except Exception as e:      # noqa -- the auxiliary layer must never turn into a verdict
+        return dict(x_crosshair_error='%s: %s' % (type(e).__name__, e), x_crosshair_inconclusive=list(names or []))
     extra = dict(obligations=len(rs), discharged=sum(r['verdict'] == 'confirmed' for r in rs), unknown=0, cex=[],
                  x_crosshair_lemmas=rs, samples=[dict(crosshair_lemma=r['lemma'], verdict=r['verdict']) for r in rs[:2]])
     extra['x_crosshair_inconclusive'] = [r['lemma'] for r in rs if r['verdict'] == 'inconclusive']
